@@ -71,7 +71,11 @@ def outside_pair(rng, r):
     if not keys:
         return None
     k = rng.choice(keys)
-    x, y = rng.sample(["é", "ü", "ß", "Ω", "日", "\u00a0"], 2)
+    if rng.random() < 0.3:
+        # letters whose case mapping is irregular (dotted capital I, long s, Kelvin sign) next to their plain relatives
+        x, y = rng.choice([("İ", "I"), ("İ", "i"), ("ſ", "s"), ("\u212a", "k"), ("ı", "i"), ("ẞ", "ß")])
+    else:
+        x, y = rng.sample(["é", "ü", "ß", "Ω", "日", "\u00a0"], 2)
     a, b = copy.deepcopy(r), copy.deepcopy(r)
     a["Comment"] = b["Comment"] = ""
     base = r[k].rstrip("/")
